@@ -1,5 +1,12 @@
-# `red` selects the reductions that are generated: bit 0 = the reduce.jdf tree (parsec_reduce_new, odd MT only), bit 1 = parsec_reduce_col_New, bit 2 = parsec_reduce_row_New.
-# The column/row reductions of this tree never invoke the operator and index src/dest out of range (see the report of the harness author): they are only generated on request (--knob red=7).
+# knobs of harness/l2/mat.c that matter for C22 (defaults are what this registration runs):
+#  red (default 1): reductions that are generated; bit 0 = the reduce.jdf tree (parsec_reduce_new, only in the shape whose tile references are all legal: MT odd,
+#      tile column 0 on one rank), bit 1 = parsec_reduce_col_New, bit 2 = parsec_reduce_row_New.  The reductions of this tree are stubs (the operator is never invoked,
+#      the column/row variants index src and dest out of range), so bits 1 and 2 are only generated on request (--knob red=6/7) and then report
+#      reduce-operator-never-called / reduce-wrong-result / crash.
+#  mapempty (default 1): 0 drops parsec_map_operator calls on matrices of which some rank owns no tile.  With the default the check reports the genuine defect
+#      "parsec_map_operator never terminates on a rank that owns no tile" (class no-progress, detail tag [map-operator-on-tileless-rank]); a known_findings.json entry
+#      keyed on that tag turns it into a KNOWN-FINDING line.
+# MAT_REAL is defined in registry.d/C21.py (fragments are executed in sorted order).
 REGISTRY["C22"] = l2("C22", "mat", ["harness/l2/mat_driver.c"], ["harness/l2/mat.c"], 4, MAT_REAL,
     "1-4 ranks x 1-4 worker threads, 11 schedulers; matrix of int or double tiles, 1-6 x 1-6 tiles of 1..5 x 1..5 elements (non-square grids, partial last tiles), distributions 2D block-cyclic "
     "(grids, k-cyclicity, origin), tabular, sym. block-cyclic and SBC (apply on the stored triangle only); 1-3 operations per run out of parsec_apply / parsec_apply_New+Destruct (full, upper, lower), "
